@@ -1894,7 +1894,14 @@ class _gpg_multivalued(_multivalued):
                 # The lines are now bytes in the encoding used above (that of
                 # a file opened in text mode, if it declares one): they must be
                 # decoded with that encoding, not with the default one.
-                if len(args) < 4 and 'encoding' not in kwargs:
+                # That holds whether or not the caller named an encoding
+                # (iter_paragraphs always does): a caller's encoding says how
+                # to read bytes input, and these lines were str.
+                if len(args) >= 4:
+                    argsl = list(args)
+                    argsl[3] = encoding
+                    args = tuple(argsl)
+                else:
                     kwargs['encoding'] = encoding
 
         _multivalued.__init__(self, *args, **kwargs)
